@@ -310,8 +310,10 @@ class C13(Prop):
     def _consistency(self, case, o, fs):
         v = o["value"]
         r, g, b, a = chans(v)
-        exp = {"red": r, "green": g, "blue": b, "alpha": a, "rgb": v >> 8, "bgr": (b << 16) | (g << 8) | r,
-               "argb": (a << 24) | (v >> 8), "rgba": v,
+        rgb = (r << 16) | (g << 8) | b
+        # every packed view is a function of the four bytes: a value with stray bits above bit 31 is caught here
+        exp = {"red": r, "green": g, "blue": b, "alpha": a, "rgb": rgb, "bgr": (b << 16) | (g << 8) | r,
+               "argb": (a << 24) | rgb, "rgba": (rgb << 8) | a, "value": (rgb << 8) | a,
                "hex": "#%02x%02x%02x" % (r, g, b) if a == 255 else "#%02x%02x%02x%02x" % (r, g, b, a)}
         for key, e in exp.items():
             if o.get(key) != e:
